@@ -9,6 +9,9 @@ offset of the control stream (both directions) and of the data streams
 (graceful close / abrupt loss), every payload byte and checksum byte of every
 frame is bit-flipped, either side is cancelled at every 8-byte step, source
 files shrink / vanish / grow after the scan, output paths are obstructed.
+The same enumeration runs over a second tree of nothing but empty files and
+empty directories (obstruction by a directory where a file goes, by a regular
+file where a directory goes).
 Oracle on the real return values and output tree.
 """
 import vlib
@@ -27,11 +30,15 @@ def run(tier, seed):
     work = vlib.scratch("c02-")
     tp = os.path.join(work, "faulttrace")
     res = vlib.run_vh_sharded(['xfer-faults', '-seed', str(seed), '-stride', str(stride), '-budget', budget, '-trace-out', tp], shards, timeout=3000)
-    for viol in res['violations']:
+    # the same enumeration over a tree of nothing but empty files and empty directories (no chunk ever flows:
+    # the only confirmations are FileDone records; output paths obstructed by a directory / a regular file)
+    tp2 = os.path.join(work, "faulttrace_empty")
+    res2 = vlib.run_vh_sharded(['xfer-faults', '-tree', 'empty', '-seed', str(seed), '-stride', str(stride), '-budget', budget, '-trace-out', tp2], shards, timeout=3000)
+    for viol in res['violations'] + res2['violations']:
         v.violation(viol['sig'], viol.get('replay'))
     # the hook traces of the faulted transfers, validated with TLC against SessionTrace.tla
     # (e.g. C02.finalize_ok_short: no file is finalized ok without every chunk written)
-    lines = e2e_common.collect(tp)
+    lines = e2e_common.collect(tp) + e2e_common.collect(tp2)
     rules, tstats = e2e_common.validate(lines, work, "faults") if lines else ([], None)
     e2e_common.report_rules(v, PROP, rules)
     v.coverage = dict(evaluations=res['behaviours'], distinct_nontrivial=res['distinct'],
@@ -40,6 +47,7 @@ def run(tier, seed):
                       samples=res['samples'][:8], exhaustive=(stride == 1), hook_traces_validated_by_tlc=tstats,
                       transfers_not_traced=res['extra'].get('transfers_not_traced'),
                       by_kind=res['extra'].get('by_kind'), outcomes=res['extra'].get('outcomes'),
+                      empty_files_tree=dict(runs=res2['behaviours'], by_kind=res2['extra'].get('by_kind'), outcomes=res2['extra'].get('outcomes')),
                       skipped_over_budget=res['extra'].get('skipped_over_budget'),
                       tlc=dict(states=mc['states'], transitions=mc['transitions'], runs=mc['runs'], negative_controls_refuted=neg))
     v.assumptions = ["connection faults are injected by the simulated transport (vnet) whose close / loss error texts and stream visibility follow quic-go",
